@@ -44,7 +44,7 @@ def run(c):
         cwd_before = fsmon.manifest(build.VERIF) if False else None
         inputs = c04.build_inputs(c, t, rng)
         ups = upload_requests(t, rng)
-        n_in = 900 if c.quick else 30000
+        n_in = 2500 if c.quick else 30000
         pick = [inputs[i] for i in sorted(rng.sample(range(len(inputs)), min(n_in, len(inputs)))) if "bufsize" not in inputs[i][0]]
         # ---- Engine A, both entry points
         for entry in ("process", "legacy"):
@@ -75,7 +75,7 @@ def run(c):
             try:
                 served_file = sorted(k for k in t.files if len(t.files[k]) > 50)[0]
                 srv.request(("GET %s HTTP/1.1\r\nHost: x\r\n\r\n" % served_file).encode())
-                nb = 500 if c.quick else 8000
+                nb = 1200 if c.quick else 8000
                 bpick = pick[:nb]
                 history = []
                 for i, (m, shape, raw) in enumerate(ups):
